@@ -84,6 +84,10 @@ theorem mem_of_mem_mqEnqOf {enq : List (Nat × MqCmd)} {k : Nat} {c : MqCmd} (h 
   obtain ⟨⟨a, b⟩, ⟨hm, rfl⟩, rfl⟩ := h
   exact hm
 
+theorem mqWantReqs_length (g : Nat) (c : MqCmd) : (mqWantReqs g c).length = mqWant g c := by
+  unfold mqWantReqs mqWant
+  split <;> simp <;> omega
+
 /-- bookkeeping of the queues against the ghost lists `created`, `answered`, `completed` and the
     commands enqueued so far -/
 structure QInv (g : Nat) (created : List MqReq) (ans : List Nat) (completed : List (Nat × Nat))
@@ -103,8 +107,7 @@ structure QInv (g : Nat) (created : List MqReq) (ans : List Nat) (completed : Li
   want : ∀ (qi : Nat) (q : MqQueue), qs[qi]? = some q → ∀ (seq : Nat) (c : MqCmd),
     (mqEnqOf enq qi)[seq]? = some c → seq < q.done + (if q.running then 1 else 0) →
     ((created.filter fun r => r.q = qi ∧ r.seq = seq).map fun r => (r.kind, r.idx)) = mqWantReqs g c
-  live : (∀ x ∈ enq, 1 ≤ mqWant g x.2) →
-    ∀ (qi : Nat) (q : MqQueue), qs[qi]? = some q → q.running = true → q.reqs ≠ []
+  live : ∀ (qi : Nat) (q : MqQueue), qs[qi]? = some q → q.running = true → q.reqs ≠ []
 
 section
 variable {g : Nat} {cr : List MqReq} {ans : List Nat} {comp : List (Nat × Nat)} {qs : List MqQueue}
@@ -187,11 +190,10 @@ theorem QInv.enq (h : QInv g cr ans comp qs en) {k : Nat} {q0 : MqQueue} (hk : q
     · have hb := h.bound hj'
       rw [List.getElem?_append_left (Nat.lt_of_lt_of_le hlt hb)] at hc'
       exact h.want j q hj' seq c' hc' hlt
-  · intro hpos j q hj hr
-    have hpos' : ∀ x ∈ en, 1 ≤ mqWant g x.2 := fun x hx => hpos x (List.mem_append_left _ hx)
+  · intro j q hj hr
     rcases mq_set_inv hk hj with ⟨rfl, rfl⟩ | ⟨_, hj'⟩
-    · exact h.live hpos' j q0 hk hr
-    · exact h.live hpos' j q hj' hr
+    · exact h.live j q0 hk hr
+    · exact h.live j q hj' hr
 
 theorem mq_nodup_map_inj {l : List MqReq} (h : (l.map (·.id)).Nodup) {r r' : MqReq}
     (hr : r ∈ l) (hr' : r' ∈ l) (e : r.id = r'.id) : r = r' := by
@@ -287,10 +289,10 @@ theorem QInv.answer_part (h : QInv g cr ans comp qs en) (hids : (cr.map (·.id))
     rcases mq_set_inv hk hj with ⟨rfl, rfl⟩ | ⟨_, hj'⟩
     · exact h.want j q0 hk seq c' hc' hlt
     · exact h.want j q hj' seq c' hc' hlt
-  · intro hpos j q hj hr
+  · intro j q hj hr
     rcases mq_set_inv hk hj with ⟨rfl, rfl⟩ | ⟨_, hj'⟩
     · exact hne
-    · exact h.live hpos j q hj' hr
+    · exact h.live j q hj' hr
 
 /-- an answer is processed, it was the last open request of the command: the command completes -/
 theorem QInv.answer_done (h : QInv g cr ans comp qs en) (hids : (cr.map (·.id)).Nodup) {k : Nat} {q0 : MqQueue}
@@ -395,16 +397,16 @@ theorem QInv.answer_done (h : QInv g cr ans comp qs en) (hids : (cr.map (·.id))
       simp only [Bool.false_eq_true, if_false] at hlt
       omega
     · exact h.want j q hj' seq c' hc' hlt
-  · intro hpos j q hj hr
+  · intro j q hj hr
     rcases mq_set_inv hk hj with ⟨rfl, rfl⟩ | ⟨_, hj'⟩
     · cases hr
-    · exact h.live hpos j q hj' hr
+    · exact h.live j q hj' hr
 
 /-- queue `k` starts its head command `c`, creating the requests `new` -/
 theorem QInv.start (h : QInv g cr ans comp qs en) {k : Nat} {q0 : MqQueue} (hk : qs[k]? = some q0)
     {c : MqCmd} {rest : List MqCmd} (hc : q0.cmds = c :: rest) (hr : q0.running = false) (new : List MqReq)
     (htag : ∀ r ∈ new, r.q = k ∧ r.seq = q0.done ∧ r.id ∉ ans)
-    (hw : new.map (fun r => (r.kind, r.idx)) = mqWantReqs g c) (hlen : new.length = mqWant g c) :
+    (hw : new.map (fun r => (r.kind, r.idx)) = mqWantReqs g c) (hnew : new ≠ []) :
     QInv g (cr ++ new) ans comp (qs.set k { q0 with running := true, reqs := new.map (·.id) }) en := by
   have hold : ∀ r ∈ cr, r.q = k → r.seq < q0.done := by
     intro r hr' hq
@@ -529,18 +531,134 @@ theorem QInv.start (h : QInv g cr ans comp qs en) {k : Nat} {q0 : MqQueue} (hk :
         exact absurd ((htag r hr').1.symm.trans hq) (Ne.symm hjk)
       rw [e2, List.map_nil, List.append_nil]
       exact h.want j q hj' seq c' hc' hlt
-  · intro hpos j q hj hr'
+  · intro j q hj hr'
     rcases mq_set_inv hk hj with ⟨rfl, rfl⟩ | ⟨_, hj'⟩
-    · have h1 : (j, c) ∈ en := mem_of_mem_mqEnqOf (List.mem_of_getElem? hcidx)
-      have h2 := hpos _ h1
-      show new.map (·.id) ≠ []
+    · show new.map (·.id) ≠ []
       intro e
-      have : new.length = 0 := by
-        have := congrArg List.length e
-        simpa using this
-      simp only at h2
+      exact hnew (List.map_eq_nil_iff.1 e)
+    · exact h.live j q hj' hr'
+
+/-- queue `k` starts its head command `c`, which needs no request: it completes at once -/
+theorem QInv.startZero (h : QInv g cr ans comp qs en) {k : Nat} {q0 : MqQueue} (hk : qs[k]? = some q0)
+    {c : MqCmd} {rest : List MqCmd} (hc : q0.cmds = c :: rest) (hr : q0.running = false)
+    (hzero : mqWant g c = 0) :
+    QInv g cr ans (comp ++ [(k, q0.done)])
+      (qs.set k { q0 with cmds := rest, running := false, reqs := [], done := q0.done + 1 }) en := by
+  have hold : ∀ r ∈ cr, r.q = k → r.seq < q0.done := by
+    intro r hr' hq
+    obtain ⟨q, hq', hseq⟩ := h.seq_lt r hr'
+    rw [hq, hk] at hq'
+    cases hq'
+    rw [hr] at hseq
+    simpa using hseq
+  have hcidx : (mqEnqOf en k)[q0.done]? = some c := by
+    have h1 := h.enq_drop k q0 hk
+    rw [hc] at h1
+    have h2 := List.getElem?_drop (xs := mqEnqOf en k) (i := q0.done) (j := 0)
+    rw [h1] at h2
+    simpa using h2.symm
+  have hb : q0.done + 1 ≤ (mqEnqOf en k).length := by
+    rcases List.getElem?_eq_some_iff.1 hcidx with ⟨hlt, _⟩
+    exact hlt
+  constructor
+  · intro j q hj hr'
+    rcases mq_set_inv hk hj with ⟨rfl, rfl⟩ | ⟨_, hj'⟩
+    · cases hr'
+    · exact h.run_cmds j q hj' hr'
+  · intro j q hj hr'
+    rcases mq_set_inv hk hj with ⟨rfl, rfl⟩ | ⟨_, hj'⟩
+    · rfl
+    · exact h.idle_reqs j q hj' hr'
+  · intro j q hj x
+    rcases mq_set_inv hk hj with ⟨rfl, rfl⟩ | ⟨hjk, hj'⟩
+    · constructor
+      · intro hx; cases hx
+      · rintro ⟨r, hr', e1, e2, e3, e4⟩
+        have := hold r hr' e2
+        simp only at e3
+        omega
+    · exact h.reqs_iff j q hj' x
+  · intro r hr' hna
+    obtain ⟨q, hq, hrn, hseq⟩ := h.unans r hr' hna
+    obtain ⟨q', hq', hcase⟩ :=
+      mq_set_ex { q0 with cmds := rest, running := false, reqs := [], done := q0.done + 1 } hk hq
+    refine ⟨q', hq', ?_⟩
+    rcases hcase with ⟨_, rfl, rfl⟩ | ⟨_, rfl⟩
+    · rw [hr] at hrn; cases hrn
+    · exact ⟨hrn, hseq⟩
+  · intro r hr'
+    obtain ⟨q, hq, hseq⟩ := h.seq_lt r hr'
+    obtain ⟨q', hq', hcase⟩ :=
+      mq_set_ex { q0 with cmds := rest, running := false, reqs := [], done := q0.done + 1 } hk hq
+    refine ⟨q', hq', ?_⟩
+    rcases hcase with ⟨_, rfl, rfl⟩ | ⟨_, rfl⟩
+    · rw [hr] at hseq
+      simp only [Bool.false_eq_true, if_false] at hseq ⊢
       omega
-    · exact h.live hpos j q hj' hr'
+    · exact hseq
+  · intro j q hj
+    rcases mq_set_inv hk hj with ⟨rfl, rfl⟩ | ⟨_, hj'⟩
+    · show (mqEnqOf en j).drop (q0.done + 1) = rest
+      have h1 := h.enq_drop j q0 hk
+      rw [hc] at h1
+      rw [← List.tail_drop, h1]; rfl
+    · exact h.enq_drop j q hj'
+  · intro j q hj
+    rcases mq_set_inv hk hj with ⟨rfl, rfl⟩ | ⟨_, hj'⟩
+    · exact hb
+    · exact h.enq_done j q hj'
+  · intro j q hj
+    rw [List.filter_append, List.map_append]
+    rcases mq_set_inv hk hj with ⟨rfl, rfl⟩ | ⟨hjk, hj'⟩
+    · rw [h.comp_range j q0 hk]
+      simp [List.range_succ]
+    · rw [h.comp_range j q hj']
+      simp [Ne.symm hjk]
+  · intro p hp
+    rw [List.length_set]
+    rcases List.mem_append.1 hp with hp | hp
+    · exact h.comp_lt p hp
+    · simp only [List.mem_singleton] at hp
+      subst hp
+      exact mq_lookup_lt hk
+  · rw [List.nodup_append]
+    refine ⟨h.comp_nodup, by simp, ?_⟩
+    intro a ha b hb' e
+    simp only [List.mem_singleton] at hb'
+    subst hb'
+    subst e
+    have : q0.done ∈ (comp.filter (·.1 = k)).map (·.2) := by
+      simp only [List.mem_map, List.mem_filter, decide_eq_true_eq]
+      exact ⟨(k, q0.done), ⟨ha, rfl⟩, rfl⟩
+    rw [h.comp_range k q0 hk] at this
+    simp at this
+  · intro j q hj seq c' hc' hlt
+    rcases mq_set_inv hk hj with ⟨rfl, rfl⟩ | ⟨_, hj'⟩
+    · simp only [Bool.false_eq_true, if_false] at hlt
+      by_cases hs : seq = q0.done
+      · subst hs
+        rw [hcidx] at hc'
+        cases hc'
+        have e1 : cr.filter (fun r => r.q = j ∧ r.seq = q0.done) = [] := by
+          rw [List.filter_eq_nil_iff]
+          intro r hr'
+          simp only [decide_eq_true_eq, not_and]
+          intro hq
+          have := hold r hr' hq
+          omega
+        have e2 : mqWantReqs g c = [] := by
+          apply List.eq_nil_of_length_eq_zero
+          rw [mqWantReqs_length]; exact hzero
+        rw [e1, e2]; rfl
+      · refine h.want j q0 hk seq c' hc' ?_
+        rw [hr]
+        simp only [Bool.false_eq_true, if_false]
+        omega
+    · exact h.want j q hj' seq c' hc' hlt
+  · intro j q hj hr'
+    rcases mq_set_inv hk hj with ⟨rfl, rfl⟩ | ⟨_, hj'⟩
+    · cases hr'
+    · exact h.live j q hj' hr'
 
 end
 
@@ -660,7 +778,7 @@ theorem mq_set_same {k : Nat} {q : MqQueue} (hk : qs[k]? = some q) : qs.set k q 
 
 theorem MInv.start (h : MInv g a b n s qs out en) {k : Nat} {q : MqQueue} (hk : qs[k]? = some q) :
     MInv g a b n (s.start k q).1 (qs.set k (s.start k q).2.1) out en := by
-  rcases s.start_cases k q with ⟨_, e⟩ | ⟨c, rest, hc, hr, e⟩
+  rcases s.start_cases k q with ⟨_, e⟩ | ⟨c, rest, hc, hr, hnew, e⟩ | ⟨c, rest, hc, hr, hnil, e⟩
   · rw [e]
     show MInv g a b n s (qs.set k q) out en
     rw [mq_set_same hk]; exact h
@@ -689,7 +807,17 @@ theorem MInv.start (h : MInv g a b n s qs out en) {k : Nat} {q : MqQueue} (hk : 
         have := h.fl.lt r.id (List.mem_append_right _ hx)
         omega
       · rw [mqNewReqs_want, h.cfg_g]
-      · rw [mqNewReqs_length, h.cfg_g]
+      · exact hnew
+    · intro _
+      show (0 : Int) ≤ if c.kind = .h2d then (s.cycH2D : Int) else (s.cycD2H : Int)
+      split <;> omega
+  · rw [e]
+    have hzero : mqWant g c = 0 := by
+      have := mqNewReqs_length s k q.done c
+      rw [hnil, h.cfg_g] at this
+      exact this.symm
+    refine ⟨h.cfg_g, h.cfg_a, h.cfg_b, ?_, h.fl, h.q.startZero hk hc hr hzero, ?_, h.fault⟩
+    · rw [List.length_set]; exact h.qlen
     · intro _
       show (0 : Int) ≤ if c.kind = .h2d then (s.cycH2D : Int) else (s.cycD2H : Int)
       split <;> omega
@@ -764,7 +892,7 @@ theorem MqEnv.Inv.init (g a b n : Nat) (warm : Bool) : (MqEnv.init g a b n warm)
     · intro p hp; cases hp
     · exact List.nodup_nil
     · intro j q hj seq c hc; simp [mqEnqOf, MqEnv.init] at hc
-    · intro _ j q hj hr; rw [hq j q hj] at hr; cases hr
+    · intro j q hj hr; rw [hq j q hj] at hr; cases hr
 
 theorem MqEnv.Inv.step {g a b n : Nat} {e : MqEnv} (h : e.Inv g a b n) (op : MqOp) : (e.step op).1.Inv g a b n := by
   cases op with
@@ -829,10 +957,6 @@ theorem reachMq_inv (g a b n : Nat) (warm : Bool) (ops : List MqOp) : (reachMq g
   MqEnv.Inv.run ops (MqEnv.Inv.init g a b n warm)
 
 /-! ## consequences used by the property theorems -/
-
-theorem mqWantReqs_length (g : Nat) (c : MqCmd) : (mqWantReqs g c).length = mqWant g c := by
-  unfold mqWantReqs mqWant
-  split <;> simp <;> omega
 
 theorem MqEnv.Inv.completed_spec {g a b n : Nat} {e : MqEnv} (h : e.Inv g a b n) {qi seq : Nat}
     (hc : (qi, seq) ∈ e.s.completed) :
